@@ -3,6 +3,7 @@ C19 - dictionary findall returns complete, resolvable, history-independent resul
 
 Lean: Model/FindAll.lean, Proofs/FindAll.lean, Proofs/FindAllDesc.lean, Proofs/FindAllList.lean (list roots),
   Proofs/FindAllTail.lean ('//*/name/sub'), Props/C19.lean
+(the model follows the code with fixes C19-a ... C19-f applied)
 B streams: fa.tok (normalisation), fa.find (findall end to end + state of the default objects after the call),
   fa.findm (findall(xpath, raise_exception) in both modes through the public entry point), fa.raw (_findall with raise_exception=False / explicit token lists), fa.first (findfirst), fa.hist (sequences of
   searches through the shared default objects), fa.pure (result + defaults + the container as it is AFTER the call against
@@ -16,7 +17,8 @@ C evaluators (the statement on the real code): search (every key through item ac
   IndexError/KeyError with raise_exception=False and never KeyError with True), mixed (findall/findfirst on list-rooted and dict-rooted
   containers interleaved and repeated in one process: every outcome equals the one of a freshly loaded module and the
   first outcome of the same search; encoding and identity of every node of the container unchanged; findfirst
-  none/many signalling).
+  none/many signalling), text ('//*/name[text() op v]' with leaves of every kind against an independent oracle, agreement
+  with item access).  In search / findfirst / mixed a raise is "no claim" only for what a token itself refuses.
 """
 import re
 import types
@@ -31,9 +33,11 @@ MANIFEST = dict(
               "arguments as explicit state + differential correspondence with the implementation (results in order, exception "
               "class, contents of _findall.__defaults__ after every call) + the statement executed on the implementation",
     text="Lean (Props/C19.lean), all unbounded in tree size, depth, expression and history length, for the code with "
-         "fixes C19-a/b/c/d/e applied (d: a name/index step below a final element is a miss of that branch instead of "
+         "fixes C19-a/b/c/d/e/f applied (d: a name/index step below a final element is a miss of that branch instead of "
          "KeyError('Internal error'), so '//*/name/first' goes on with the other branches; e: findall hands raise_exception on to "
-         "_findall, which findfirst relies on). Every theorem about findallTop holds for both modes (re). n0dict.findall and n0list.findall hand self to the same findall(), so the model has "
+         "_findall, which findfirst relies on; f: a text() condition compares a node that is not a string - an int/bool/float node "
+         "as a number with the expected text converted as item access does, None/dict/list equal to no text - instead of raising "
+         "AttributeError in both modes, which aborted fan-out and wildcard searches with real matches). Every theorem about findallTop holds for both modes (re). n0dict.findall and n0list.findall hand self to the same findall(), so the model has "
          "one entry point (findallTop) for both roots. FOR EVERY ROOT (dict or list, any tree): C19_state_invariant - a search "
          "started from the fresh default objects ([], {}) leaves them ([], {}), for every tree, expression and outcome "
          "(exceptions included); C19_objects_untouched - no call of _findall modifies the stack dict it received and an empty "
@@ -83,6 +87,17 @@ MANIFEST = dict(
          "'//' = the root itself) return that value and leave the tree unchanged; C19_resolves_list - in particular the key of "
          "an exact-path result. C19_text_key_fixed (witness of the former finding C19-c), C19_scalar_in_list_cex, "
          "C19_scalar_in_list_root_cex (a scalar in a list under a wildcard/name raises IndexError: outside the quantifier). "
+         "TEXT() CONDITIONS (fix C19-f): C19_text_never_attribute_error / C19_findfirst_never_attribute_error - no search raises "
+         "AttributeError, for every tree, expression, state and mode; C19_exceptions_from_expression - every exception of findall is "
+         "TypeError/ValueError/SyntaxError of a token of the expression itself (classify) or, with raise_exception=True only, "
+         "IndexError/KeyError: nothing is raised because of the kind of a node; C19_text_step - a text() step on any node either "
+         "misses that branch (None, objects untouched) or goes on in the same node; C19_text_str_unchanged - on string nodes the "
+         "case-insensitive comparison as before; C19_text_nonstr_selects - an int node equals the expected text iff int(text) is that "
+         "number, a bool is 1/0, None/dict/list equal no text (so '=' misses and '!=' selects them); C19_text_agrees_item_access - on "
+         "every node that is neither a string nor a float the comparison IS the one of the item-access model (XPath.textEqCond), "
+         "C19_text_str_item_access_subset for strings (item access is case-sensitive); C19_text_float_node(_int) - float nodes: integer "
+         "literals below 10^15 and texts that cannot be float literals are decided, other float literals are outside the model "
+         "(unsupported, evaluator text only); C19_text_nonstr_fixed - the witnesses of the former finding. "
          "C19_descendant_tail (+_positions, _iff; Proofs/FindAllTail.lean): on a dict root with KeysOkV, ContOkV and no entry called "
          "name being a list, '//*/name/sub' returns exactly, in document order, the entries sub of the dictionaries called name at "
          "any depth under their canonical xpaths - a name that is a final element is a miss of that branch and the search goes "
@@ -98,7 +113,12 @@ MANIFEST = dict(
          "loaded module, fan-out also at a list root, descendant in document order and again after other searches on the "
          "same object, findfirst none/one/many also on list roots, findall/findfirst on list- and dict-rooted containers "
          "interleaved and repeated in one process with encoding and identity of every node unchanged) is executed on the "
-         "implementation.",
+         "implementation. In the evaluators search, findfirst and mixed a raise counts as 'no claim' only when it is the "
+         "TypeError/ValueError/SyntaxError that a token of the expression raises by itself (token_error, a port of classify written "
+         "in the harness) or, with raise_exception=True, IndexError/KeyError; every other raise is a failure. Evaluator text: "
+         "'//*/name[text() op v]' (+ '/../sibling') on trees whose entries called name are int/float/bool/None/str/containers against "
+         "an independent oracle - exactly the selected entries in document order, both modes, findfirst, after other searches, and "
+         "agreement with item access on which nodes the condition selects.",
     note="keys are plain names (an n0dict resolves keys containing '/' or '[' as xpaths); lower()/isnumeric() beyond ASCII "
          "are outside the model (answered 'unsupported'); object identity is checked on the implementation only.",
     design_ref="5/C19",
@@ -268,6 +288,136 @@ def model_tokens(expr):
     return [t for t in s.replace("[", "/[").replace("//", "/").split("/") if t]
 
 
+def py_isnumber(v):
+    """isnumber() of n0struct_utils for a text, written again (the harness never asks the code under test what a token is)"""
+    v = v.strip()
+    if v.startswith("+") or v.startswith("-"):
+        v = v[1:].strip()
+    if v.count(".") == 1:
+        v = v.replace(".", "0")
+    return v.isnumeric()
+
+
+def token_error(tok):
+    """the exception a step raises BY ITSELF, whatever node it is applied to (Lean `classify` = .fail e): None when the
+    token raises nothing, '?' when this port does not cover it (characters beyond ASCII in a bracket step)"""
+    if tok.strip() == ".." or not tok.startswith("["):
+        return None
+    if not tok.endswith("]"):
+        return "TypeError"
+    if any(ord(ch) > 127 for ch in tok):
+        return "?"
+    ci = tok[1:-1].strip()
+    if py_isnumber(ci):
+        try:
+            int(ci)
+            return None
+        except ValueError:
+            return "ValueError"
+    low = ci.lower().replace(" ", "")
+    if low == "*":
+        return None
+    if low.startswith("last()"):
+        after = low[6:]
+        try:
+            eval("-1" + after if all(ch in "-+0123456789" for ch in after) else "")  # digits and signs only
+            return None
+        except SyntaxError:
+            return "SyntaxError"
+    if low.startswith("text()"):
+        after = low[6:]
+        for d in ("==", "=", "!=", "<>"):
+            if after.startswith(d):
+                return None if d in ci else "ValueError"  # `_before, after = child_index.split(d, 1)`
+        return "TypeError"
+    return "TypeError"
+
+
+MISS = ("IndexError", "KeyError")  # the two exceptions _findall uses for "not there"
+
+
+def raise_refused(expr, cls, quiet):
+    """Is a raise of class `cls` something the property makes no claim about?  Only what a token of the expression
+    raises by itself (C19_exceptions_from_expression: TypeError / ValueError / SyntaxError of a malformed step) and - with
+    raise_exception=True - the two signals for "not there".  Anything else (AttributeError of a text() condition on a
+    leaf that is not a string: former finding C19-f) is a failure of the search, whatever the tree looks like."""
+    if not quiet and cls in MISS:
+        return True
+    errs = {token_error(t) for t in model_tokens(expr)}
+    return cls in errs or "?" in errs
+
+
+def text_eq_oracle(node, val):
+    """does the node have the text `val`?  strings case-insensitively, numbers as numbers (the expected text converted
+    into the type of the node, as item access does), None / dict / list have no text"""
+    if isinstance(node, str):
+        return node.lower() == val.lower()
+    if isinstance(node, int):  # bool included
+        try:
+            return node == int(val)
+        except ValueError:
+            return False
+    if isinstance(node, float):
+        try:
+            return node == float(val)
+        except ValueError:
+            return False
+    return False
+
+
+def text_vals(rng, v):
+    """expected texts for a text() condition on a leaf like v: hits in several spellings and misses"""
+    if isinstance(v, str):
+        pool = [v, v.upper(), v.lower(), "zz", v + " ", "1"]
+    elif isinstance(v, bool):
+        pool = ["1", "0", "true", "True", "01", "false", " 1"]
+    elif isinstance(v, int):
+        pool = [str(v), str(v), "0%d" % abs(v), " %d " % v, "+%d" % v, "%d.0" % v, "1_0", "zz", "1", "0"]
+    elif isinstance(v, float):
+        pool = [repr(v), repr(v), "%.2f" % v, "1", "nan", "1e0", "zz", "0.5", "+.5"]
+    elif v is None:
+        pool = ["none", "None", "null", "v", "0"]
+    else:
+        pool = ["v", "zz", "1", "{}"]
+    return rng.choice(pool)
+
+
+TEXT_OPS = [("=", True), ("=", True), ("==", True), ("!=", False), ("!=", False), ("<>", False), (" = ", True)]
+
+
+def gen_text_exprs(rng, tree, k):
+    """text() conditions on leaves of every kind (int / float / bool / None / str / containers) reached through a
+    wildcard, an implicit fan-out (a name applied to a list), [*] or an exact path - so that the other branches of the same
+    search hold leaves of other kinds - optionally followed by '..' steps"""
+    ents = [(p, v) for p, v in X.positions(tree) if p and isinstance(p[-1], str)]
+    if not ents:
+        return []
+    nonstr = [(p, v) for p, v in ents if not isinstance(v, str)]
+    out = []
+    for _ in range(k):
+        p, v = rng.choice(nonstr) if nonstr and rng.random() < 0.7 else rng.choice(ents)
+        if rng.random() < 0.3:  # the text of a sibling branch: the condition then meets this leaf as "another branch"
+            q_, v2 = rng.choice(ents)
+            val = text_vals(rng, v2) if q_[-1] == p[-1] or rng.random() < 0.5 else text_vals(rng, v)
+        else:
+            val = text_vals(rng, v)
+        op, _eq = rng.choice(TEXT_OPS)
+        q = rng.choice(["", "", "", "'", '"'])
+        cond = "[" + rng.choice(["text()", "text()", "TEXT()"]) + op + q + val + q + "]"
+        r = rng.random()
+        if r < 0.35:
+            base = rng.choice(["//*/", "*/", "//*/", "*/*/"]) + p[-1]
+        elif r < 0.6:  # implicit fan-out: the index steps are left out, the names are applied to the lists
+            names = [s for s in p if isinstance(s, str)]
+            base = rng.choice(["", "//", "/"]) + "/".join(names)
+        elif r < 0.8:
+            base = spell_path(rng, tree, p, star_p=0.8)
+        else:
+            base = spell_path(rng, tree, p)
+        out.append(base + cond + rng.choice(["", "", "/..", "/../name", "/../id", "/../" + p[-1], "/../.."]))
+    return out
+
+
 # --------------------------------------------------------------------------- implementation wrappers
 def defaults_state():
     d = F()._findall.__defaults__
@@ -389,6 +539,13 @@ def has_text(expr):
     return any(t.startswith("[") and t[1:].replace(" ", "").lower().startswith("text()") for t in model_tokens(expr))
 
 
+def text_meets_nonstr(s):
+    """statistics only: the expression has a text() condition directly behind a name that some non-string entry of the tree carries"""
+    toks = model_tokens(s["expr"])
+    names = {toks[i - 1] for i, t in enumerate(toks) if i and t.startswith("[") and t[1:].replace(" ", "").lower().startswith("text()")}
+    return any(p and p[-1] in names and not isinstance(v, str) for p, v in X.positions(s["tree"]))
+
+
 CLASSIFIERS = {}
 
 
@@ -445,6 +602,14 @@ def check_search(c):
             # below a final element - is a miss (former finding C19-d: KeyError "Internal error")
             if names_only(c["expr"]):
                 return {"what": "raised", "raised": r[1], "expr": c["expr"]}
+            # otherwise "no claim" only for what a token itself refuses (TypeError / ValueError / SyntaxError of that token)
+            # and for the two signals of a miss; never because of the kind of a leaf (former finding C19-f: AttributeError
+            # of a text() condition on an int / float / bool / None leaf aborted fan-out and wildcard searches)
+            if not raise_refused(c["expr"], r[1], quiet=False):
+                return {"what": "raised", "raised": r[1], "expr": c["expr"]}
+            rq = core.call(lambda: o.findall(c["expr"], False))
+            if rq[0] == "err" and not raise_refused(c["expr"], rq[1], quiet=True):
+                return {"what": "raised", "raised": rq[1], "expr": c["expr"], "raise_exception": False}
             return None
         found = r[1]
         if found is None:
@@ -630,6 +795,120 @@ def check_descendant_tail(c):
     return None
 
 
+def named_with_parent(node, path, name):
+    """the order of `desc_spec`, with the dictionary that holds each entry: (xpath of the entry, value, xpath of the
+    holder, holder)"""
+    out = []
+    if isinstance(node, dict):
+        if name in dict.keys(node):
+            out.append(((("//" + name) if path == "//" else (path + "/" + name)), dict.__getitem__(node, name), path, node))
+        for k in dict.keys(node):
+            v = dict.__getitem__(node, k)
+            if isinstance(v, (dict, list)):
+                out += named_with_parent(v, ("//" + k) if path == "//" else (path + "/" + k), name)
+    elif isinstance(node, list):
+        for i, v in enumerate(node):
+            out += named_with_parent(v, "%s[%d]" % (path, i), name)
+    return out
+
+
+_SIMPLE_TEXT = re.compile(r"^[A-Za-z0-9.+-]+$")
+
+
+def check_text(c):
+    """'//*/name[text() op val]' (optionally '/../tail') on a tree whose entries called `name` are leaves of every kind:
+    no raise in either mode; exactly the entries the oracle selects (strings case-insensitively, numbers as numbers, None /
+    dict / list have no text: '=' misses them, '!=' selects them), in document order, each key resolving through item
+    access to the identical value; the same mapping with raise_exception=False and again after other searches; findfirst
+    consistent; and findall selects what item access selects for the same condition (nodes that are not strings: the same
+    nodes; strings: item access compares case-sensitively, so with '=' what it selects findall selects too, with '!=' the other way round)"""
+    o = X.convert(c["tree"], c["mode"])
+    name, val, eq, tail = c["name"], c["_val"], c["_eq"], c["_tail"]
+    expr = c["expr"]
+    ents = named_with_parent(o, "//", name)
+    sel = [e for e in ents if text_eq_oracle(e[1], val) == eq]
+    if tail is None:
+        want = [(k, v) for k, v, _pp, _par in sel]
+    else:
+        want = [((("//" + tail) if pp == "//" else (pp + "/" + tail)), dict.__getitem__(par, tail)) for _k, _v, pp, par in sel if tail in dict.keys(par)]
+    before = enc_val(o)
+    reset_defaults()
+    try:
+        r = core.call(lambda: o.findall(expr))
+        if r[0] != "ok":
+            return {"raised": r[1], "expr": expr, "want": [k for k, _ in want][:5]}
+        got = r[1] or {}
+        if not isinstance(got, dict):
+            return {"found": repr(got)[:200]}
+        missing = [k for k, _ in want if k not in got]
+        extra = [k for k in got if k not in dict(want)]
+        if missing or extra:
+            return {"missing": missing[:5], "extra": extra[:5], "expr": expr}
+        if list(got.keys()) != [k for k, _ in want]:
+            return {"order": list(got.keys())[:6], "want_order": [k for k, _ in want][:6]}
+        for k, v in want:
+            if got[k] is not v:
+                return {"key": k, "got": repr(got[k])[:100], "want": repr(v)[:100]}
+            rr = core.call(lambda: o[k])
+            if rr[0] != "ok" or rr[1] is not v:
+                return {"key": k, "item_access": repr(rr)[:120], "what": "resolves"}
+        rq = core.call(lambda: o.findall(expr, False))
+        if not same_found(r, rq):
+            return {"after_related_calls": show_found(rq)[:300], "first": show_found(r)[:300], "raise_exception": False}
+        for re_ in (True, False):
+            why = first_spec(rq, re_, core.call(lambda: o.findfirst(expr, re_)))
+            if why:
+                return {"raise_exception": re_, "why": why, "expr": expr}
+        # findall and item access agree on which nodes the condition selects
+        if tail is None and _SIMPLE_TEXT.match(val):
+            for k, v, _pp, _par in ents:
+                ia = core.call(lambda: o.get(k + "[text()" + ("=" if eq else "!=") + val + "]", _MISSING))
+                if ia[0] != "ok":
+                    continue  # item access refuses the condition: no claim about agreement
+                picked = ia[1] is not _MISSING
+                if isinstance(v, str):  # case-sensitive there, case-insensitive here: '=' selects a subset there, '!=' a superset
+                    if (picked and k not in got) if eq else (k in got and not picked):
+                        return {"key": k, "why": "text node: item access %s it, findall %s it" % ("selects" if picked else "rejects", "selects" if k in got else "rejects"), "expr": expr}
+                elif picked != (k in got):
+                    return {"key": k, "why": "item access %s this node, findall %s" % ("selects" if picked else "rejects", "selects" if k in got else "rejects"), "expr": expr}
+        for other in ("*", name + "[text()=zz]/..", "[0]", "//*/" + name + "[text()]"):
+            core.call(lambda: o.findall(other))
+        r2 = core.call(lambda: o.findall(expr))
+        if not same_found(r, r2):
+            return {"after_related_calls": show_found(r2)[:300], "first": show_found(r)[:300]}
+        if not defaults_clean():
+            return {"defaults_after_call": defaults_state()}
+        if enc_val(o) != before:
+            return {"tree_changed": True}
+        return None
+    finally:
+        reset_defaults()
+
+
+def gen_text_cases(rng, t):
+    """cases of the evaluator `text` for one in-quantifier tree: every entry name that occurs with a leaf that is not a
+    string somewhere (so that one branch of the wildcard meets a non-string), and one other name"""
+    tree = t["tree"]
+    ents = [(p, v) for p, v in X.positions(tree) if p and isinstance(p[-1], str)]
+    if not ents:
+        return []
+    names = sorted({p[-1] for p, v in ents if not isinstance(v, str)})
+    picks = names[:3] + [rng.choice(ents)[0][-1]]
+    out = []
+    for name in picks:
+        same = [v for p, v in ents if p[-1] == name]
+        val = text_vals(rng, rng.choice(same)).strip()
+        if not val or any(ch in val for ch in "[]/'\"") or val != val.strip():
+            val = "v"
+        op, eq = rng.choice(TEXT_OPS)
+        q = rng.choice(["", "", "'", '"'])
+        sibs = sorted({p[-1] for p, v in ents if p[-1] != name}) + ["zz"]
+        tail = rng.choice([None, None, rng.choice(sibs)])
+        expr = rng.choice(["//*/", "*/"]) + name + "[text()" + op + q + val + q + "]" + ("" if tail is None else "/../" + tail)
+        out.append({"tree": tree, "mode": t["mode"], "name": name, "expr": expr, "_val": val, "_eq": eq, "_tail": tail})
+    return out
+
+
 _CODE = {}
 
 
@@ -669,9 +948,6 @@ def check_history(c):
         reset_defaults()
 
 
-MISS = ("IndexError", "KeyError")  # the two exceptions _findall uses for "not there"
-
-
 def check_findfirst(c):
     """findfirst returns the first pair or signals none / many as documented: the search itself runs with
     raise_exception=False (`findall(node, xpath, False)`), so a miss of any kind - an index out of range, '..' above the root,
@@ -683,6 +959,11 @@ def check_findfirst(c):
     # raise_exception=False: a miss is never an exception; where the default mode answers, the quiet mode answers the same
     if q[0] == "err" and q[1] in MISS:
         return {"raise_exception": False, "findall_raised": q[1], "why": "a miss must be None with raise_exception=False"}
+    # what the quiet search still raises comes from a token of the expression, never from the kind of a node (C19-f)
+    if q[0] == "err" and not raise_refused(c["expr"], q[1], quiet=True):
+        return {"raise_exception": False, "findall_raised": q[1], "why": "only a malformed step may raise"}
+    if r[0] == "err" and not raise_refused(c["expr"], r[1], quiet=False):
+        return {"raise_exception": True, "findall_raised": r[1], "why": "only a malformed step or a miss may raise"}
     if r[0] == "ok" and not same_found(r, q):
         return {"raise_exception": False, "findall": show_found(r)[:200], "findall_quiet": show_found(q)[:200]}
     if r[0] == "err" and r[1] not in MISS and q != r:
@@ -782,11 +1063,16 @@ def check_mixed(c):
                 same, show = same_found, lambda r: show_found(r)[:300]
                 if quiet and got[0] == "err" and got[1] in MISS:
                     return {"step": n, "expr": e, "kind": kind, "raise_exception": False, "in_sequence": show(got), "why": "a miss must be None"}
+                if got[0] == "err" and not raise_refused(e, got[1], quiet):
+                    return {"step": n, "expr": e, "kind": kind, "raise_exception": not quiet, "in_sequence": show(got), "why": "only a malformed step (or a miss) may raise"}
             else:
                 re_ = kind == "T"
                 got = core.call(lambda: o.findfirst(e, re_))
                 want = core.call(lambda: fresh.findfirst(o, e, re_))
                 same, show = same_first, show_first
+                # findfirst searches quietly: besides its own IndexError only a malformed step may raise
+                if got[0] == "err" and not (got[1] == "IndexError" and re_) and not raise_refused(e, got[1], True):
+                    return {"step": n, "expr": e, "kind": kind, "raise_exception": re_, "findfirst": show_first(got), "why": "only a malformed step may raise"}
             if not defaults_clean():
                 return {"step": n, "expr": e, "kind": kind, "defaults_after_call": defaults_state()}
             if enc_val(o) != before:
@@ -816,7 +1102,7 @@ def gen_mixed(rng, trees_l, trees_d):
     steps = []
     pool = {}
     for i, t in enumerate(ts):
-        es = gen_exprs(rng, t["tree"], 3) + ["//*/name", "name", "zz", "[*]", "//"]
+        es = gen_exprs(rng, t["tree"], 3) + gen_text_exprs(rng, t["tree"], 2) + ["//*/name", "name", "zz", "[*]", "//"]
         poss = [p for p, _v in X.positions(t["tree"]) if p]
         if poss:
             es.append(canon(t["tree"], rng.choice(poss)))
@@ -833,8 +1119,8 @@ def gen_mixed(rng, trees_l, trees_d):
     return {"trees": [t["tree"] for t in ts], "modes": [t["mode"] for t in ts], "steps": steps, "inq": all(t["inq"] for t in ts)}
 
 
-EVALS = {"mixed": check_mixed, "search": check_search, "exact": check_exact, "fanout": check_fanout, "descendant": check_descendant, "history": check_history, "findfirst": check_findfirst}
-KNOWN = {"mixed": None, "search": None, "exact": None, "fanout": None, "descendant": None, "history": None, "findfirst": None}
+EVALS = {"mixed": check_mixed, "text": check_text, "search": check_search, "exact": check_exact, "fanout": check_fanout, "descendant": check_descendant, "history": check_history, "findfirst": check_findfirst}
+KNOWN = {"mixed": None, "text": None, "search": None, "exact": None, "fanout": None, "descendant": None, "history": None, "findfirst": None}
 
 
 def case_valid(ev, c):
@@ -876,7 +1162,7 @@ def shrink_failure(evaluator, case):
 
     def texts(c):
         # the searched name / expression(s) are part of the property's quantifier: only the trees may shrink
-        return (c.get("name"), c.get("expr"), c.get("mode"), sorted({tuple(st[1:]) for st in c.get("steps", [])}) if "steps" in c else None)
+        return (c.get("name"), c.get("expr"), c.get("mode"), c.get("_val"), c.get("_eq"), c.get("_tail"), sorted({tuple(st[1:]) for st in c.get("steps", [])}) if "steps" in c else None)
 
     def still(c):
         if not case_valid(ev, c):
@@ -902,7 +1188,7 @@ def failure_kind(bad):
     if "what" in bad:
         return ("what", bad["what"])
     return tuple(sorted(k for k in bad if k in ("raised", "missing", "order", "after_related_calls", "defaults_after_call", "tree_changed",
-                                                  "in_sequence", "oracle_keys_collide", "raise_exception", "found", "got", "key", "repeat_differs", "why", "extra", "findall_raised")))
+                                                  "in_sequence", "oracle_keys_collide", "raise_exception", "found", "got", "key", "repeat_differs", "why", "extra", "findall_raised", "item_access")))
 
 
 def replay(rp):
@@ -957,6 +1243,12 @@ def run(ctx):
     searches = []
     for t in trees:
         for e in gen_exprs(rng, t["tree"], ctx.budget(8, 10)):
+            searches.append({"tree": t["tree"], "mode": t["mode"], "expr": e, "inq": t["inq"]})
+
+    # text() conditions on leaves of every kind under wildcards / fan-outs / exact paths (fix C19-f)
+    rng = ctx.rng("text-exprs")
+    for t in trees:
+        for e in gen_text_exprs(rng, t["tree"], 2):
             searches.append({"tree": t["tree"], "mode": t["mode"], "expr": e, "inq": t["inq"]})
 
     # ---- B: normalisation
@@ -1018,7 +1310,7 @@ def run(ctx):
         steps = []
         for _ in range(rng.choice([2, 3, 4, 6, 8])):
             i = rng.randrange(k)
-            e = rng.choice(gen_exprs(rng, ts[i]["tree"], 2) + ["//*/name", "name"])
+            e = rng.choice(gen_exprs(rng, ts[i]["tree"], 2) + gen_text_exprs(rng, ts[i]["tree"], 1) + ["//*/name", "name"])
             steps.append((i, e))
             if rng.random() < 0.3:
                 steps.append((i, e))  # the same search twice in a row
@@ -1065,6 +1357,12 @@ def run(ctx):
         for name in ["name"] + ([rng.choice(inner_keys)] if inner_keys else []):
             subs = sorted({q[-1] for q, v in X.positions(t["tree"]) if len(q) >= 2 and isinstance(q[-1], str) and name in q[:-1]})
             desc.append({"tree": t["tree"], "mode": t["mode"], "name": name, "sub": rng.choice(subs + ["a", "name", "zz"]) if subs else rng.choice(["a", "k", "name"])})
+    rng = ctx.rng("text")
+    texts = []
+    for t in trees:
+        if t["inq"]:
+            texts += gen_text_cases(rng, t)
+    ctx.evaluate("text", texts, check_text, nontrivial=lambda c: len(named_with_parent(c["tree"], "//", c["name"])) > 1)
     ctx.evaluate("exact", exact, check_exact, nontrivial=lambda c: len(c["pos"]) > 1)
     ctx.evaluate("fanout", fan, check_fanout, nontrivial=lambda c: len(X.get_at(c["tree"], c["pos"])) > 1)
     ctx.evaluate("descendant", desc, check_descendant,
@@ -1077,7 +1375,9 @@ def run(ctx):
         "object identity is checked on the implementation only; the model speaks about values/positions",
         "the model does not thread the tree (it is an argument, never part of a result): 'the tree is not modified' is checked on the implementation (stream fa.pure: encoding after the call; evaluators search/history/mixed: encoding and identity of every node)",
         "n0list.findall / n0dict.findall hand self to the same findall(): one model entry point (findallTop) for both roots; half of the generated trees are list-rooted",
-        "the model follows n0struct_findall.py with fixes C19-a ... C19-e applied (d: a step below a final element is a miss; e: findall passes raise_exception on to _findall)",
+        "the model follows n0struct_findall.py with fixes C19-a ... C19-f applied (d: a step below a final element is a miss; e: findall passes raise_exception on to _findall; f: text() compares nodes that are not strings instead of raising AttributeError)",
+        "text() on a float node: float(expected) is modelled for integer literals below 10^15 and for texts that cannot be float literals; other float literals are answered 'unsupported' by the model (< 2 % of the streams) and covered by the evaluator text on the implementation",
+        "a raise is 'no claim' for the evaluators only if a token of the expression raises that class by itself (harness port token_error of the model's classify; tokens with characters beyond ASCII: no claim) or it is IndexError/KeyError with raise_exception=True",
         "'as documented' for findfirst: there is no prose documentation; the contract is the signature (raise_exception=True) and the code of findfirst itself - it searches with findall(node, xpath, False) and signals none by IndexError('Not found item') / (None, None), many by IndexError / the first pair",
         "'fresh search' of the history evaluator = the same search on a newly executed copy of n0struct_findall.py (new function objects, new default objects)",
     ]
@@ -1095,6 +1395,8 @@ def run(ctx):
         "mixed": len(mixed), "mixed_findfirst_steps": sum(1 for c in mixed for st in c["steps"] if st[2] in "TF"),
         "descendant_two_step": sum(1 for c in desc if c.get("sub")), "findm": len(findms),
         "findfirst_list_rooted": len(first_list),
+        "text_cases": len(texts), "text_cases_nonstr_entry": sum(1 for c in texts if any(not isinstance(e[1], str) for e in named_with_parent(c["tree"], "//", c["name"]))),
+        "searches_text_on_nonstr_leaf": sum(1 for s in searches if has_text(s["expr"]) and text_meets_nonstr(s)),
     }
 
 
